@@ -18,7 +18,7 @@ CLAIMS = {
             "text": "Coq theorems: the cached and the reference computer leave Leibniz-equal rows for every table whose known rows have lower == upper (all n); spec of the memoised relation matrix and selection lemmas; memo invariant over any interleaving of player counts. Correspondence: impl-cached vs impl-ref vs model (n = 2..8), interleaved / repeated use with hashed memo arrays, relation matrix vs Structure.st_matrix.",
             "technique": "Coq proof (uniqueness of the fixpoint equations) + three-way differential check"},
     "C02": {"design_ref": "DESIGN.md 7/C02",
-            "text": "Coq theorems (all n, K, v, stale tables, both computers): every superadditive completion lies between the computed bounds; the lower bounds are themselves a completion (minimum attained simultaneously); every upper bound is attained by an explicit completion w(X) = max(L X, U S + L(X\\S)); explicit min-over-known-supersets formula. Correspondence as C01 plus an independent exact optimum (Fractions) and, thorough, the two LPs over the completion polytope.",
+            "text": "Coq theorems (all n, K, v, stale tables, both computers): every superadditive completion lies between the computed bounds; the lower bounds are themselves a completion (minimum attained simultaneously); every upper bound is attained by an explicit completion w(X) = max(L X, U S + L(X\\S)); explicit min-over-known-supersets formula; lower bound = best total of a partition into known coalitions (both directions). Correspondence as C01 plus an independent exact optimum (Fractions) and, thorough, the two LPs over the completion polytope.",
             "technique": "Coq proof (soundness applied to arbitrary completions + explicit extremal witness) + correspondence + independent optimum oracle"},
     "C04": {"design_ref": "DESIGN.md 7/C04",
             "text": "Coq theorems for EVERY repetition count r: soundness (invariant preserved by every single cell write), never looser than the superadditive bounds, monotone in r, lower bounds antitone along inclusion, upper-bound caps; all for arbitrary stale tables. Correspondence of compute_bounds_superadditive_monotone_approx_cached with the model for r in 0..10, 100, 1000 and oracles on the implementation.",
@@ -36,7 +36,7 @@ CLAIMS = {
             "text": "Coq theorems: invariant of the environment state machine by induction over ANY sequence of reset/step/unstep calls (known = initially known + chosen since the last reset, known rows carry the hidden values, table fresh, step counter), mask / observation / done / info / reset specifications, step+unstep restores the table exactly. Lock-step correspondence of ICG_Gym with the model after every call (all n=3 sequences, sampled n=4,5; every computer, gap function, budget) + an implementation-side oracle (knowledge, mask, observation, reward = -gap of fresh bounds <= 0, done predicate).",
             "technique": "Coq invariant proof over operation traces + lock-step correspondence"},
     "C13": {"design_ref": "DESIGN.md 7/C13",
-            "text": "Coq theorems: greedy / worst-greedy return a valid action of maximal / minimal tried reward with ties to the lowest index (also as a function of the reward vector, the form compared in lock-step); largest returns a valid action of maximal coalition size, lowest index; trying an action is a step which unstep undoes exactly. Lock-step correspondence for every registered solver at every reachable n=3 state and sampled n=4,5 states with asymmetric games; expected-greedy search checked against the exhaustive optimum with 1,2,4 processes (implementation-side oracle; not modelled in Coq).",
+            "text": "Coq theorems: greedy / worst-greedy return a valid action of maximal / minimal tried reward with ties to the lowest index (also as a function of the reward vector, the form compared in lock-step); largest returns a valid action of maximal coalition size, lowest index; trying an action is a step which unstep undoes exactly. Lock-step correspondence for every registered solver at every reachable n=3 state and sampled n=4,5 states with asymmetric games; expected-greedy search modelled and proved (each choice minimises the mean gap over all one-coalition extensions, no repeats, rows = gaps of prefixes, curve non-increasing for class games, never below a lower bound of all same-size sets, optimal for one reveal) and compared with get_greedy_rewards on exact gaps, plus the exhaustive-optimum oracle with 1,2,4 processes.",
             "technique": "Coq proof of first-argmax/argmin selection + lock-step correspondence"},
     "C16": {"design_ref": "DESIGN.md 7/C16",
             "text": "Coq theorems: the linear mask allows size k iff an unknown explorable coalition of size k exists; candidates = exactly those coalitions, non-empty when allowed; a linear step IS the underlying step of a candidate; the observation is the per-size sum of the inner observation, of length n. Lock-step correspondence with ICG_Gym_Linear (the sampled coalition read from info and passed to the model).",
@@ -45,7 +45,7 @@ CLAIMS = {
             "text": "Coq theorems over exact rationals (which cover every float input): closed formula of the sequential singleton subtraction (all n), range [0,1] with singletons 0 and grand 1 (or identically 0 iff additive), superadditivity preserved, denormalise o normalise = id, graph and tabulated forms commute; refutation witnesses showing the hypotheses cannot be dropped. Correspondence: exact stream bit-for-bit, float stream over every generator family and nearly additive games, graph stream, gym observation inside its Box; oracle = the property on the implementation's output.",
             "technique": "Coq proof (loop invariant over the player loop, ordered-field reasoning) + correspondence + range oracle"},
     "C11": {"design_ref": "DESIGN.md 7/C11",
-            "text": "Coq theorems: the enumeration is every sub-list of the unknown coalitions of length <= k exactly once by increasing size (itertools.combinations model proved in CombsProofs); the reported gap depends only on the set starting knowledge + sequence, is the gap of the game in which exactly that set is known, ignores the state left in the shared game object, and any chunking of the task list over workers equals the sequential map; meta-game value is the same quantity; best-states is a per-size first-argmin of the mean. Correspondence with 1..16 worker processes (stale rows planted in the pickled object), independent per-set gap oracle, per-size optimum oracle. Partial: Pool pickling/chunking is modelled (sr_starmap), not verified.",
+            "text": "Coq theorems: the enumeration is every sub-list of the unknown coalitions of length <= k exactly once by increasing size (itertools.combinations model proved in CombsProofs); the reported gap depends only on the set starting knowledge + sequence, is the gap of the game in which exactly that set is known, ignores the state left in the shared game object, and any chunking of the task list over workers equals the sequential map; meta-game value is the same quantity; best-states is a per-size first-argmin of the mean; per-game value never increases with one more coalition (class games) and the best-states curve is non-increasing. Correspondence with 1..16 worker processes (stale rows planted in the pickled object), independent per-set gap oracle, per-size optimum oracle. Partial: Pool pickling/chunking is modelled (sr_starmap), not verified.",
             "technique": "Coq proof (enumeration spec, function-of-knowledge, chunking lemma, argmin fold invariant) + multi-process correspondence"},
     "C05": {"design_ref": "DESIGN.md 7/C05 + DESIGN_NOTES/C05.md",
             "text": "Coq theorems for ALL n: exploitability = binomially weighted gap (sum exchange; general form with no hypothesis), = summed per-player maximal Shapley value minus v(N); non-negative when lower <= upper; zero iff all intervals degenerate; per-player domination for every completion inside the box; max-gain game inside the box. Correspondence of compute_exploitability and the three norms on objects with bounds set directly (one size widened at a time, swaps visible), n = 2..8, plus Fraction oracle of the right-hand side.",
